@@ -183,6 +183,46 @@ theorem step_pend {V : Type} (P : Problem V) (first : Bool) (σ : St V) (b : Nat
     · rw [if_pos htf] at h; exact mem_pushAll _ _ _ h
     · rw [if_neg htf] at h; exact Or.inl h
 
+theorem pushAll_nodup (l : List Nat) : ∀ (p : List Nat), p.Nodup → (pushAll p l).Nodup := by
+  induction l with
+  | nil => intro p h; simpa [pushAll] using h
+  | cons a l ih =>
+    intro p h
+    simp only [pushAll, List.foldl_cons]
+    apply ih
+    split
+    · exact h
+    · rename_i hc
+      rw [List.nodup_append]
+      refine ⟨h, by simp, ?_⟩
+      intro x hx y hy
+      simp at hy
+      subst hy
+      intro hxy
+      subst hxy
+      exact hc hx
+
+theorem step_nodup {V : Type} (P : Problem V) (first : Bool) (σ : St V) (b : Nat) (p : List Nat)
+    (h : p.Nodup) : (step P first (σ, p) b).2.Nodup := by
+  simp only [step]
+  generalize (first || (if P.preds b = [] then false else P.cflag (σ.inn b) (conVal P σ b))) = ch
+  cases ch
+  · simpa using h
+  · simp only [if_true]
+    by_cases htf : P.tflag (σ.outt b) (P.f b (conVal P σ b)) = true
+    · rw [if_pos htf]; exact pushAll_nodup _ _ h
+    · rw [if_neg htf]; exact h
+
+theorem fold_nodup {V : Type} (P : Problem V) (first : Bool) : ∀ (w : List Nat) (σ : St V) (p : List Nat),
+    p.Nodup → (w.foldl (step P first) (σ, p)).2.Nodup := by
+  intro w
+  induction w with
+  | nil => intro σ p h; exact h
+  | cons b t ih =>
+    intro σ p h
+    simp only [List.foldl_cons]
+    exact ih _ _ (step_nodup P first σ b p h)
+
 /-- bound on the elements of the arrays -/
 def Bounded (n : Nat) (l : List Nat) : Prop := ∀ x ∈ l, x < n
 
